@@ -72,7 +72,7 @@ def gen_ops(rng, cfg, n, focus=None):
     nargs = cfg['nargs']
     direct = cfg['backend'].startswith('direct')
     hot = rng.sample(range(nargs), min(nargs, rng.randint(1, 3)))
-    w = dict(call=70, lookup=4, key=3, info=3, load=4, dump=4, clear=2, archived=3, setarch=2, archset=4)
+    w = dict(call=70, lookup=4, key=3, info=3, load=4, dump=4, clear=2, archived=3, setarch=2, archset=4, memclear=0)
     w.update(focus.get('weights', {}))
     if focus.get('calls_only'):
         w = dict(call=1)
@@ -180,6 +180,10 @@ def gen_ops(rng, cfg, n, focus=None):
                 ops.append(('setarch', None))
             else:
                 ops.append(('setarch', sorted(rng.sample(range(nargs), rng.randint(0, nargs)))))
+        elif kind == 'memclear':
+            # f.__cache__().clear(): the memory emptied BEHIND the wrapper (a plain dict operation on the cache object
+            # the wrapper hands out) - queue, counters and statistics keep pointing at entries that are gone
+            ops.append(('call', arg()) if direct else ('memclear',))
         elif kind == 'archset':
             a = arg(False)
             if isinstance(a, int) and rng.random() < focus.get('p_stale', 0):
